@@ -14,8 +14,7 @@ RULE = ('every labelled digraph with self-loops on n nodes (adjacency matrix = '
         'block cases contain distinct graphs by construction')
 ASSUMPTIONS = [
     'oracle = mutual reachability from a Warshall closure written independently',
-    'graphs beyond the node bound are not explored (no random graphs: the '
-    'technique is exhaustive enumeration only)',
+    'beyond the node bound only six structured graph families at three sizes each are run (300 .. 70 000 nodes: above the small-int cache, the recursion limit and 65536-entry lists); no random graphs',
 ]
 BOUND = {
     'quick': 'all digraphs n<=4 (2+16+512+65536) x 3 encodings x 2 sink modes x '
@@ -59,6 +58,15 @@ def cases(tier, seed):
                         for start in range(0, total, BLOCK):
                             yield [n, start, min(total, start + BLOCK), enc,
                                    list(perm), True, False, build]
+    # scale families: the same oracle on graphs that are not small (structured
+    # families, every member for the listed sizes; thresholds such as 256 small
+    # ints, 1000 recursion frames or 65536 list entries lie below them)
+    for fam in SCALE_FAMILIES:
+        for size in ((300, 1100, 2500) if fam != 'fan' else (300, 70000)):
+            for enc in ('int', 'ident'):
+                if size > 50000 and enc == 'ident' and tier == 'quick':
+                    continue
+                yield ['scale', fam, size, enc]
     if tier == 'thorough':
         n = 5
         total = 1 << 25
@@ -192,7 +200,136 @@ def run_graph(n, bits, enc, perm, lazy, unknown, build='list'):
     return viol
 
 
+SCALE_FAMILIES = ('ring', 'chain', 'rings_chained', 'ladder', 'fan', 'binary_back')
+
+
+def scale_graph(fam, n):
+    """adjacency lists of a structured graph on n nodes"""
+    adj = [[] for _ in range(n)]
+    if fam == 'ring':
+        for i in range(n):
+            adj[i].append((i + 1) % n)
+    elif fam == 'chain':
+        for i in range(n - 1):
+            adj[i].append(i + 1)
+        adj[n // 2].append(n // 2)            # one self-loop in the middle
+    elif fam == 'rings_chained':
+        # rings of 7 nodes, each linked to the next ring
+        for i in range(n):
+            base = i - i % 7
+            nxt = base + (i % 7 + 1) % 7
+            if nxt < n:
+                adj[i].append(nxt)
+            if i % 7 == 3 and i + 7 < n:
+                adj[i].append(i + 7)
+    elif fam == 'ladder':
+        # two rails with rungs in both directions every third node
+        h = n // 2
+        for i in range(h - 1):
+            adj[i].append(i + 1)
+            adj[h + i + 1].append(h + i)
+        for i in range(0, h, 3):
+            adj[i].append(h + i)
+            adj[h + i].append(i)
+    elif fam == 'fan':
+        # 0 -> 1, 1 -> 0 and 1 -> a great many leaves
+        adj[0].append(1)
+        adj[1].append(0)
+        adj[1].extend(range(2, n))
+    elif fam == 'binary_back':
+        # a binary tree whose leaves point back to the root
+        for i in range(n):
+            for c in (2 * i + 1, 2 * i + 2):
+                if c < n:
+                    adj[i].append(c)
+            if 2 * i + 1 >= n and i % 5 == 0:
+                adj[i].append(0)
+    return adj
+
+
+def scc_oracle(adj):
+    """Kosaraju, iterative - independent of the implementation under test."""
+    n = len(adj)
+    order, seen = [], [False] * n
+    for s0 in range(n):
+        if seen[s0]:
+            continue
+        st = [(s0, 0)]
+        seen[s0] = True
+        while st:
+            v, i = st.pop()
+            if i < len(adj[v]):
+                st.append((v, i + 1))
+                w = adj[v][i]
+                if not seen[w]:
+                    seen[w] = True
+                    st.append((w, 0))
+            else:
+                order.append(v)
+    radj = [[] for _ in range(n)]
+    for v in range(n):
+        for w in adj[v]:
+            radj[w].append(v)
+    comp = [-1] * n
+    c = 0
+    for s0 in reversed(order):
+        if comp[s0] >= 0:
+            continue
+        st = [s0]
+        comp[s0] = c
+        while st:
+            v = st.pop()
+            for w in radj[v]:
+                if comp[w] < 0:
+                    comp[w] = c
+                    st.append(w)
+        c += 1
+    groups = {}
+    for v in range(n):
+        groups.setdefault(comp[v], []).append(v)
+    comps = {frozenset(g) for g in groups.values()}
+    cyc = {g for g in comps if len(g) > 1 or next(iter(g)) in adj[next(iter(g))]}
+    return comps, cyc
+
+
+def run_scale(fam, n, enc):
+    adj = scale_graph(fam, n)
+    comps, cyc = scc_oracle(adj)
+    if enc == 'int':
+        vals = list(range(n))
+        g = DiGraph(vals, make_hashable=None)
+        back = {v: v for v in vals}
+        key = lambda x: x
+    else:
+        vals = [_N(i) for i in range(n)]
+        g = DiGraph(vals)
+        key = lambda x: x.i
+    viol = []
+    try:
+        for i in range(n):
+            if adj[i]:
+                g.add_neighbors(vals[i], [vals[j] for j in adj[i]])
+        for trivial, want in ((True, comps), (False, cyc)):
+            got = list(g.sccs(trivial)) if trivial else list(g.sccs())
+            gs = [frozenset(key(x) for x in c) for c in got]
+            flat = [key(x) for c in got for x in c]
+            if len(flat) != len(set(flat)):
+                viol.append(('node_repeated', trivial, '%d nodes yielded, %d distinct' % (len(flat), len(set(flat)))))
+            elif set(gs) != want or len(gs) != len(want):
+                viol.append(('wrong_components', trivial, '%d components, oracle %d; e.g. missing %s' % (len(gs), len(want), [sorted(x)[:6] for x in list(want - set(gs))[:2]])))
+    except Exception as e:  # noqa
+        viol.append(('exception', type(e).__name__, repr(e)[:300]))
+    return viol
+
+
 def run_case(case):
+    if case[0] == 'scale':
+        _, fam, n, enc = case
+        vs = run_scale(fam, n, enc)
+        return {'evals': 1, 'nontrivial': 1, 'outcome': 'scale',
+                'violations': [{'clause': v[0],
+                                'sig': {'lazy_sink': True, 'trivial': v[1]} if v[0] != 'exception' else {'lazy_sink': True, 'exc': v[1]},
+                                'detail': 'scale family %s, %d nodes, %s nodes -> %r' % (fam, n, enc, v)} for v in vs]}
     n, start, stop, enc, perm, lazy, unknown = case[:7]
     build = case[7] if len(case) > 7 else 'list'
     violations = []
